@@ -71,7 +71,7 @@ std::unique_ptr<IWorld> makeWorld(const Scenario& sc) {
 }
 
 void addStats(Stats& a, const Stats& b) {
-    for (int k = 0; k < 3; ++k) { a.points[k] += b.points[k]; a.startedAt[k] += b.startedAt[k]; }
+    for (int k = 0; k < 4; ++k) { a.points[k] += b.points[k]; a.startedAt[k] += b.startedAt[k]; }
     a.tasks += b.tasks; a.maxDepth = std::max(a.maxDepth, b.maxDepth); a.inversions += b.inversions; a.overlaps += b.overlaps;
     a.deferredToWait += b.deferredToWait; a.ranAfterScribble += b.ranAfterScribble; a.commutativeReordered += b.commutativeReordered;
     a.prioInversions += b.prioInversions; a.scribbles += b.scribbles; a.teamSmaller += b.teamSmaller; a.stuck += b.stuck;
@@ -205,8 +205,8 @@ Json statsJson(const RunState& rs, const Ctx& ctx) {
     Json s = Json::object();
     const Stats& a = rs.agg;
     s.set("regions", rs.regions).set("tasks", rs.tasksTotal).set("race_pairs", rs.racePairs).set("callbacks", ctx.callbacks).set("argchecks", ctx.argchecks);
-    s.set("points_create", a.points[0]).set("points_yield", a.points[1]).set("points_wait", a.points[2]);
-    s.set("started_create", a.startedAt[0]).set("started_yield", a.startedAt[1]).set("started_wait", a.startedAt[2]);
+    s.set("points_create", a.points[0]).set("points_yield", a.points[1]).set("points_wait", a.points[2]).set("points_deep", a.points[3]);
+    s.set("started_create", a.startedAt[0]).set("started_yield", a.startedAt[1]).set("started_wait", a.startedAt[2]).set("started_deep", a.startedAt[3]);
     s.set("inversions", a.inversions).set("overlaps", a.overlaps).set("max_depth", a.maxDepth).set("commutative_reordered", a.commutativeReordered);
     s.set("prio_inversions", a.prioInversions).set("scribbles", a.scribbles).set("ran_after_scribble", a.ranAfterScribble).set("team_smaller", a.teamSmaller);
     s.set("threads_changed", rs.sc.threadsCtor != rs.sc.threadsExec ? 1 : 0);
@@ -610,7 +610,7 @@ Json runScenario(const Scenario& sc) {
         r.set("inverted_pairs", a).set("nested_pairs", b);
     }
     Json pol = Json::object();
-    pol.set("p_create", sc.policy.pCreate).set("p_yield", sc.policy.pYield).set("pick", sc.policy.pick).set("worker_mode", sc.policy.workerMode)
+    pol.set("p_create", sc.policy.pCreate).set("p_yield", sc.policy.pYield).set("p_deep", sc.policy.pDeep).set("pick", sc.policy.pick).set("worker_mode", sc.policy.workerMode)
        .set("scribble", sc.policy.scribble).set("team_shrink", sc.policy.teamShrink);
     r.set("policy", pol);
     Json fe = Json::array();
